@@ -115,7 +115,8 @@ Inductive clo_case (s : bc) (e : event) (s' : bc) : Prop :=
 | CC_call_other k g c : e = EAckCall k g -> clo_find (clos s) k = Some c -> c_stat c = CReg ->
     in_closure s g = false -> (forall id, c_kind c <> KPubcomp id) ->
     s' = set_clos (clo_enqueue s c) (clo_set (clos s) k (CRun g)) -> clo_case s e s'
-| CC_call_done k g c : e = EAckCall k g -> clo_find (clos s) k = Some c -> c_stat c = CDone -> s' = s -> clo_case s e s'
+| CC_call_done k g c : e = EAckCall k g -> clo_find (clos s) k = Some c -> c_stat c = CDone ->
+    in_closure s g = false -> s' = s -> clo_case s e s'
 | CC_del_ok g id c : e = EDelete g Incoming id true -> clo_del_find (clos s) g id = Some c ->
     s' = set_clos (clo_enqueue (sess_delete s Incoming id) c) (clo_set (clos s) (c_k c) (CRun g)) -> clo_case s e s'
 | CC_del_fail g id c : e = EDelete g Incoming id false -> clo_del_find (clos s) g id = Some c ->
@@ -127,7 +128,8 @@ Inductive clo_case (s : bc) (e : event) (s' : bc) : Prop :=
           else set_clos s (clo_set (clos s) (c_k c) (CRun g))) -> clo_case s e s'
 | CC_ret k g c : e = EAckRet k g -> clo_find (clos s) k = Some c -> c_stat c = CRun g ->
     s' = set_clos s (clo_set (clos s) k CDone) -> clo_case s e s'
-| CC_ret_done k g c : e = EAckRet k g -> clo_find (clos s) k = Some c -> c_stat c = CDone -> s' = s -> clo_case s e s'.
+| CC_ret_done k g c : e = EAckRet k g -> clo_find (clos s) k = Some c -> c_stat c = CDone ->
+    in_closure s g = false -> s' = s -> clo_case s e s'.
 
 Lemma step_clo_cases s e s' : step_clo s e = Some s' -> clo_case s e s'.
 Proof.
@@ -146,13 +148,13 @@ Proof.
       * eapply CC_call_other; eauto. intros id' E'; rewrite Ek in E'; discriminate E'.
       * eapply CC_call_other; eauto. intros id' E'; rewrite Ek in E'; discriminate E'.
       * eapply CC_call_pc; eauto.
-    + injection H as <-. eapply CC_call_done; eauto.
+    + destruct (in_closure s g) eqn:Ei; [discriminate H|]. injection H as <-. eapply CC_call_done; eauto.
   - (* EAckRet *)
     destruct (clo_find (clos s) k) as [c|] eqn:Ef; [|discriminate H].
     destruct (c_stat c) eqn:Es; try discriminate H.
     + destruct (g =? g0) eqn:Eg; [|discriminate H]. apply N.eqb_eq in Eg. subst g0. injection H as <-.
       eapply CC_ret; eauto.
-    + injection H as <-. eapply CC_ret_done; eauto.
+    + destruct (in_closure s g) eqn:Ei; [discriminate H|]. injection H as <-. eapply CC_ret_done; eauto.
   - (* EDelete *)
     destruct d; [|discriminate H].
     destruct (clo_del_find (clos s) g id) as [c|] eqn:Ef; [|discriminate H].
@@ -214,47 +216,61 @@ Proof. unfold clo_enqueue. destruct (clo_live s c); reflexivity. Qed.
 Lemma sess_enq s c l : sess (set_clos (clo_enqueue s c) l) = sess s.
 Proof. unfold clo_enqueue. destruct (clo_live s c); reflexivity. Qed.
 
+Definition st_on (g : N) (st : cstat) : bool :=
+  match st with CDel g' | CDieLog g' | CDieClose g' | CRun g' => g =? g' | _ => false end.
+Lemma clo_on_st g c : clo_on g c = st_on g (c_stat c).
+Proof. reflexivity. Qed.
+
 Lemma clo_case_tab s e s' : clo_case s e s' ->
   clos s' = clos s \/
   exists c st, In c (clos s) /\ clos s' = clo_set (clos s) (c_k c) st /\
-               (forall g, st = CDel g -> c_stat c = CReg /\ in_closure s g = false).
+               (forall g, st_on g st = true -> clo_on g c = true \/ in_closure s g = false).
 Proof.
-  intros [k g c id -> Hf Hs Hi Hk -> | k g c -> Hf Hs Hi Hk -> | k g c -> Hf Hs -> | g id c -> Hf ->
-         | g id c -> Hf -> | g c -> Hin Hs -> | g c -> Hin Hs -> | k g c -> Hf Hs -> | k g c -> Hf Hs ->];
+  intros [k g c id -> Hf Hs Hi Hk -> | k g c -> Hf Hs Hi Hk -> | k g c -> Hf Hs Hi' -> | g id c -> Hf ->
+         | g id c -> Hf -> | g c -> Hin Hs -> | g c -> Hin Hs -> | k g c -> Hf Hs -> | k g c -> Hf Hs Hi' ->];
     try (left; reflexivity); right.
   - apply clo_find_in in Hf. destruct Hf as [Hin <-]. exists c, (CDel g).
-    repeat split; auto; match goal with E : CDel _ = CDel _ |- _ => injection E as <-; assumption end.
+    split; [exact Hin|split; [reflexivity|]]. cbn [st_on]. intros g0 E. apply N.eqb_eq in E. subst g0. right; exact Hi.
   - apply clo_find_in in Hf. destruct Hf as [Hin <-]. exists c, (CRun g). rewrite clos_enq.
-    repeat split; auto; discriminate.
-  - apply clo_del_find_in in Hf. destruct Hf as (Hin & _). exists c, (CRun g). rewrite clos_enq.
-    repeat split; auto; discriminate.
-  - apply clo_del_find_in in Hf. destruct Hf as (Hin & _). exists c, (CDieLog g). repeat split; auto; discriminate.
-  - exists c, (CDieClose g). repeat split; auto; discriminate.
-  - exists c, (CRun g). destruct (c_conn c =? conn_no s); repeat split; auto; discriminate.
-  - apply clo_find_in in Hf. destruct Hf as [Hin <-]. exists c, CDone. repeat split; auto; discriminate.
+    split; [exact Hin|split; [reflexivity|]]. cbn [st_on]. intros g0 E. apply N.eqb_eq in E. subst g0. right; exact Hi.
+  - apply clo_del_find_in in Hf. destruct Hf as (Hin & Hs & _). exists c, (CRun g). rewrite clos_enq.
+    split; [exact Hin|split; [reflexivity|]]. cbn [st_on]. intros g0 E. left. unfold clo_on. rewrite Hs. exact E.
+  - apply clo_del_find_in in Hf. destruct Hf as (Hin & Hs & _). exists c, (CDieLog g).
+    split; [exact Hin|split; [reflexivity|]]. cbn [st_on]. intros g0 E. left. unfold clo_on. rewrite Hs. exact E.
+  - exists c, (CDieClose g).
+    split; [exact Hin|split; [reflexivity|]]. cbn [st_on]. intros g0 E. left. unfold clo_on. rewrite Hs. exact E.
+  - exists c, (CRun g).
+    split; [exact Hin|split; [destruct (c_conn c =? conn_no s); reflexivity|]].
+    cbn [st_on]. intros g0 E. left. unfold clo_on. rewrite Hs. exact E.
+  - apply clo_find_in in Hf. destruct Hf as [Hin <-]. exists c, CDone.
+    split; [exact Hin|split; [reflexivity|]]. cbn [st_on]. intros g0 E. discriminate E.
 Qed.
 
 Lemma clo_case_sin s e s' : clo_case s e s' ->
   s_in (sess s') = s_in (sess s) \/ exists id, s_in (sess s') = store_delete (s_in (sess s)) id.
 Proof.
-  intros [k g c id -> Hf Hs Hi Hk -> | k g c -> Hf Hs Hi Hk -> | k g c -> Hf Hs -> | g id c -> Hf ->
-         | g id c -> Hf -> | g c -> Hin Hs -> | g c -> Hin Hs -> | k g c -> Hf Hs -> | k g c -> Hf Hs ->];
+  intros [k g c id -> Hf Hs Hi Hk -> | k g c -> Hf Hs Hi Hk -> | k g c -> Hf Hs Hi' -> | g id c -> Hf ->
+         | g id c -> Hf -> | g c -> Hin Hs -> | g c -> Hin Hs -> | k g c -> Hf Hs -> | k g c -> Hf Hs Hi' ->];
     try (left; reflexivity).
   - left. rewrite sess_enq. reflexivity.
   - right. exists id. rewrite sess_enq. reflexivity.
   - left. destruct (c_conn c =? conn_no s); reflexivity.
 Qed.
 
+Definition one_on (l : list closure) : Prop :=
+  forall c1 c2 g, In c1 l -> In c2 l -> clo_on g c1 = true -> clo_on g c2 = true -> c_k c1 = c_k c2.
+
 Definition inv_c07 (s : bc) : Prop :=
-  NoDup (ckeys (clos s)) /\
-  (forall c1 c2 g, In c1 (clos s) -> In c2 (clos s) -> c_stat c1 = CDel g -> c_stat c2 = CDel g -> c_k c1 = c_k c2) /\
-  NoDup (keys (s_in (sess s))).
+  NoDup (ckeys (clos s)) /\ one_on (clos s) /\ NoDup (keys (s_in (sess s))).
 
 Lemma inv_c07_init : inv_c07 bc_init.
 Proof. repeat split; cbn; try constructor. intros c1 c2 g []. Qed.
 
 Lemma clo_on_del c g : c_stat c = CDel g -> clo_on g c = true.
 Proof. unfold clo_on. intros ->. apply N.eqb_refl. Qed.
+
+Lemma one_on_del l c1 c2 g : one_on l -> In c1 l -> In c2 l -> c_stat c1 = CDel g -> c_stat c2 = CDel g -> c_k c1 = c_k c2.
+Proof. intros H H1 H2 E1 E2. eapply H; eauto using clo_on_del. Qed.
 
 Lemma inv_c07_clo s e s' : inv_c07 s -> step_clo s e = Some s' -> inv_c07 s'.
 Proof.
@@ -264,15 +280,17 @@ Proof.
   { destruct Hs as [->|(id & ->)]; [exact I3|apply nodup_delete, I3]. }
   unfold inv_c07.
   destruct Ht as [->|(c & st & Hin & -> & Hst)]; [repeat split; assumption|].
-  repeat split; [rewrite clo_set_keys; exact I1| |exact I3'].
+  split; [rewrite clo_set_keys; exact I1|split; [|exact I3']].
   intros c1 c2 g H1 H2 E1 E2.
   apply (in_clo_set _ _ _ _ I1) in H1. apply (in_clo_set _ _ _ _ I1) in H2.
-  destruct H1 as [[H1 N1]|(x1 & X1 & K1 & ->)]; destruct H2 as [[H2 N2]|(x2 & X2 & K2 & ->)]; cbn [c_k c_stat] in *.
+  destruct H1 as [[H1 N1]|(x1 & X1 & K1 & ->)]; destruct H2 as [[H2 N2]|(x2 & X2 & K2 & ->)]; cbn [c_k] in *.
   - eapply I2; eassumption.
-  - subst st. destruct (Hst g eq_refl) as [_ Hi]. apply (in_closure_false _ _ Hi) in H1.
-    rewrite (clo_on_del _ _ E1) in H1. discriminate H1.
-  - subst st. destruct (Hst g eq_refl) as [_ Hi]. apply (in_closure_false _ _ Hi) in H2.
-    rewrite (clo_on_del _ _ E2) in H2. discriminate H2.
+  - exfalso. rewrite clo_on_st in E2. cbn [c_stat] in E2. destruct (Hst g E2) as [Ho|Hi].
+    + apply N1. eapply I2; eassumption.
+    + rewrite (in_closure_false _ _ Hi _ H1) in E1. discriminate E1.
+  - exfalso. rewrite clo_on_st in E1. cbn [c_stat] in E1. destruct (Hst g E1) as [Ho|Hi].
+    + apply N2. eapply I2; eassumption.
+    + rewrite (in_closure_false _ _ Hi _ H2) in E2. discriminate E2.
   - reflexivity.
 Qed.
 
